@@ -233,12 +233,14 @@ func (ctl *Control) Replaced(newCtl *Control) {
 	ctl.conn.Close()
 }
 
-func (ctl *Control) RegisterWorkConn(conn net.Conn) error {
+func (ctl *Control) RegisterWorkConn(conn net.Conn) (err error) {
 	xl := ctl.xl
 	defer func() {
-		if err := recover(); err != nil {
-			xl.Errorf("panic error: %v", err)
+		if r := recover(); r != nil {
+			xl.Errorf("panic error: %v", r)
 			xl.Errorf(string(debug.Stack()))
+			// the pool has been closed by worker(): report it, the caller closes the connection
+			err = pkgerr.ErrCtlClosed
 		}
 	}()
 
